@@ -55,8 +55,17 @@ fn base(rng: &mut Rng, thorough: bool) -> Knobs {
     let small = rng.chance(1, 2);
     let max_objs = if small { 1 + rng.below(3) } else { 2 + rng.below(if thorough { 8 } else { 5 }) };
     let structured = rng.chance(3, 5);
-    let shape = if structured { 1 + rng.below(9) as u32 } else { 0 };
-    let shape_objs = if small { 1 + rng.below(3) } else { 1 + rng.below(max_objs) };
+    let mut shape = if structured { 1 + rng.below(10) as u32 } else { 0 };
+    let mut shape_objs = if small { 1 + rng.below(3) } else { 1 + rng.below(max_objs) };
+    let mut max_objs = max_objs;
+    // a minority of runs is big: many peers per table, map resizes, long groups
+    if rng.chance(1, 12) {
+        max_objs = 6 + rng.below(if thorough { 7 } else { 4 });
+        shape_objs = 4 + rng.below(max_objs - 3);
+        if shape == 0 || rng.chance(1, 3) {
+            shape = 10;
+        }
+    }
     Knobs {
         max_objs,
         walk_len: if structured { rng.below(if thorough { 30 } else { 16 }) } else { 6 + rng.below(if thorough { 54 } else { 34 }) },
@@ -64,7 +73,7 @@ fn base(rng: &mut Rng, thorough: bool) -> Knobs {
         adopt_p: 8,
         elide_p: 0,
         unmatched_p: 0,
-        max_mult: 1 + rng.below(3),
+        max_mult: if rng.chance(1, 6) { 3 + rng.below(3) } else { 1 + rng.below(3) },
         shape,
         shape_objs,
         drain: rng.chance(7, 8),
@@ -149,7 +158,7 @@ pub fn knobs(profile: &str, thorough: bool, rng: &mut Rng) -> Knobs {
             with_selfsame(rng, &mut kn);
             with_noise(rng, &mut kn);
             if kn.shape == 0 && rng.chance(2, 3) {
-                kn.shape = 1 + rng.below(9) as u32;
+                kn.shape = 1 + rng.below(10) as u32;
                 kn.walk_len = rng.below(12);
             }
             kn.drain = true;
@@ -209,7 +218,7 @@ pub fn knobs(profile: &str, thorough: bool, rng: &mut Rng) -> Knobs {
             kn.adopt_p = 8;
             with_weak(rng, &mut kn, false);
             if kn.shape == 0 && rng.chance(1, 2) {
-                kn.shape = 1 + rng.below(9) as u32;
+                kn.shape = 1 + rng.below(10) as u32;
             }
             kn.shape_objs = kn.shape_objs.max(2 + rng.below(4));
             kn.max_objs = kn.max_objs.max(kn.shape_objs);
@@ -223,7 +232,7 @@ pub fn knobs(profile: &str, thorough: bool, rng: &mut Rng) -> Knobs {
             kn.max_objs = 2 + rng.below(if thorough { 5 } else { 4 });
             kn.shape_objs = 1 + rng.below(kn.max_objs.min(4));
             if kn.shape == 0 {
-                kn.shape = 1 + rng.below(9) as u32;
+                kn.shape = 1 + rng.below(10) as u32;
             }
             kn.walk_len = rng.below(10);
             kn.drain = true;
@@ -236,7 +245,7 @@ pub fn knobs(profile: &str, thorough: bool, rng: &mut Rng) -> Knobs {
             kn.max_objs = 2 + rng.below(if thorough { 5 } else { 4 });
             kn.shape_objs = 1 + rng.below(kn.max_objs.min(5));
             if kn.shape == 0 {
-                kn.shape = 1 + rng.below(9) as u32;
+                kn.shape = 1 + rng.below(10) as u32;
             }
             kn.max_mult = 1 + rng.below(3);
             kn.walk_len = rng.below(8);
@@ -251,7 +260,7 @@ pub fn knobs(profile: &str, thorough: bool, rng: &mut Rng) -> Knobs {
             kn.max_objs = 1 + rng.below(if thorough { 6 } else { 5 });
             kn.shape_objs = 1 + rng.below(kn.max_objs.min(5));
             if kn.shape == 0 && rng.chance(3, 4) {
-                kn.shape = 1 + rng.below(9) as u32;
+                kn.shape = 1 + rng.below(10) as u32;
             }
             kn.walk_len = rng.below(14);
             kn.drain = true;
